@@ -636,6 +636,50 @@ func (w *world) end() {
 	}
 	w.cfg.EpochChanged = false
 	w.countRoundResults()
+	if specC11 {
+		w.checkTimers()
+	}
+}
+
+// specC11: property C11's timeout clause on the real roothash application: "once the round timer has
+// expired it never just keeps waiting". After EndBlock of height h no runtime that is not suspended
+// may still have a round timeout at a height <= h: the timer either fired in this EndBlock (the round
+// finalized, failed, or went to discrepancy resolution with the timer re-armed in the future) or was
+// cleared.
+var specC11 bool
+
+func (w *world) checkTimers() {
+	ctx := w.appState.NewContext(abciAPI.ContextEndBlock)
+	defer ctx.Close()
+	st := roothashState.NewMutableState(ctx.State())
+	for rt := 0; rt < nRt; rt++ {
+		rs, err := st.RuntimeState(ctx, cast.rt[rt])
+		if err != nil || rs.Suspended {
+			continue
+		}
+		if rs.NextTimeout == roothash.TimeoutNever {
+			w.count("c11:timer-cleared")
+			continue
+		}
+		if rs.NextTimeout < 0 {
+			// height + RoundTimeout overflowed int64 (the registry accepts any positive RoundTimeout):
+			// such a round has no timer that could expire at a reachable height; a corner of the
+			// parameter validation outside this property's quantifier, counted and recorded in DESIGN.md
+			w.count("c11:timer-overflowed-int64(outside-quantifier)")
+			continue
+		}
+		if rs.NextTimeout <= w.height {
+			round := uint64(0)
+			if rs.LastBlock != nil {
+				round = rs.LastBlock.Header.Round + 1
+			}
+			if w.fatal == "" {
+				w.fatal = fmt.Sprintf("c11-round-timer-expired-but-still-waiting|runtime %d: after EndBlock of height %d the round timeout of round %d is still %d: the timer expired without the round being decided (finalized, failed or handed to the backup workers with a re-armed timer)", rt, w.height, round, rs.NextTimeout)
+			}
+			return
+		}
+		w.count("c11:timer-in-the-future")
+	}
 }
 
 // countRoundResults counts, per finished round, the block type and the results of its runtime messages.
@@ -1073,6 +1117,16 @@ func run(ops []string, res *hlib.Result) (string, int) {
 			}
 		case "commit": // commit <rt> <slots> <kind> <rank>
 			w.commit(atoi(f[1]), f[2], f[3], atou(f[4]))
+		case "straggle": // straggle <rt> <kind>: one more single-member commitment, only in the block in which the round timer expires
+			rt := atoi(f[1])
+			if st := w.rtState(rt); st != nil && !st.Suspended && st.NextTimeout == w.height {
+				for _, slot := range []string{"w4", "w3", "w2", "w1", "w0", "b2", "b1", "b0"} {
+					if r := w.commit(rt, slot, f[2], 0); r != "skip" {
+						w.count("straggle:commit-in-timer-expiry-block:" + r)
+						break
+					}
+				}
+			}
 		case "evidence": // evidence <rt> <slot> <kind> <signer>
 			w.evidence(atoi(f[1]), f[2], f[3], atoi(f[4]))
 		case "submitmsg": // submitmsg <rt> <signer e<i>|x> <fee> <tokens>
@@ -1328,6 +1382,11 @@ func genCase(r *hlib.Rng, blocks int) []string {
 			ops = append(ops, fu)
 		}
 		followUps = nil
+		if r.Chance(1, 2) {
+			// a late commitment arriving exactly in the block in which the round timer expires (no-op in
+			// every other block)
+			ops = append(ops, fmt.Sprintf("straggle %d %s", r.Intn(nrt), pickS(r, []string{"0", "0", "0", "1", "F"})))
+		}
 		ntx := r.Intn(5)
 		for t := 0; t < ntx; t++ {
 			rt := r.Intn(nrt)
@@ -1410,6 +1469,7 @@ func main() {
 	flag.Parse()
 	zeroDebond = *zd
 	specC08 = *spec == "c08"
+	specC11 = *spec == "c11"
 	setup()
 
 	res := hlib.NewResult("rhdrv", *seed)
@@ -1425,6 +1485,10 @@ func main() {
 		if specC08 && !strings.HasPrefix(fatal, "c08-") {
 			// fatal block-execution paths are property C10's subject; the case simply ends there
 			res.Count("c08:case-ended-by-c10-fatal")
+			return
+		}
+		if specC11 && !strings.HasPrefix(fatal, "c11-") {
+			res.Count("c11:case-ended-by-c10-fatal")
 			return
 		}
 		sig, _ := sigOf(fatal)
@@ -1447,6 +1511,9 @@ func main() {
 		label := "C10 "
 		if specC08 {
 			label = "C08 "
+		}
+		if specC11 {
+			label = "C11 "
 		}
 		res.Fail(hlib.Failure{Kind: kind, Detail: label + sig + ": " + detail, Case: min, Seed: caseSeed, Sig: sig})
 	}
@@ -1473,7 +1540,7 @@ func main() {
 			}
 		}
 	}
-	if *dist > 0 && !specC08 {
+	if *dist > 0 && !specC08 && !specC11 {
 		runDist(hlib.FromState(hlib.NewRng(*seed^0x5d15).Next()), *dist, res)
 	}
 	rng := hlib.FromState(hlib.NewRng(*seed).Next())
